@@ -141,6 +141,20 @@ func init() {
 				e.emit("compose %s %d %s", hs(d), r.intn(1000), r.pick([]string{"all", "mix", "mix"}))
 			}
 		}
+		// integers at the limits of the typed readers, as members at even and odd offsets, under every
+		// per-value strategy (variant 3 reads numbers with ReadInt64 / ReadUint64 first)
+		ints := []string{"0", "-0", "1", "-1", "2147483647", "2147483648", "-2147483648", "-2147483649", "4294967295", "4294967296",
+			"9007199254740992", "9007199254740993", "-9007199254740993", "9223372036854775807", "9223372036854775808", "9223372036854775809",
+			"-9223372036854775808", "-9223372036854775809", "18446744073709551615", "18446744073709551616", "99999999999999999999", "1.0", "1e2", "12E-1", "01", "-"}
+		for _, iv := range ints {
+			for seed := 0; seed < 24; seed++ {
+				e.emit("compose %s %d all", hs([]byte("["+iv+"]")), seed)
+				e.emit("compose %s %d all", hs([]byte(" ["+iv+", "+iv+"]")), seed)
+				e.emit("compose %s %d all", hs([]byte(`{"id":`+iv+`,"n": `+iv+`}`)), seed)
+			}
+			e.emit("compose %s 3 all", hs([]byte(iv)))
+			e.emit("compose %s 3 all", hs([]byte(" "+iv)))
+		}
 		for _, v := range valuePool {
 			for seed := 0; seed < 6; seed++ {
 				e.emit("compose %s %d mix", hs([]byte(v+" ")), seed)
